@@ -75,7 +75,7 @@ def run(tier, replay=None):
         inits = list(gr.init)
         for init in inits:
             st = gr.nodes[init]
-            cfg = {"hdr": st["hdr"], "before": st["before"], "errAt": st["errAt"], "handler": st["handler"], "path": st["path"], "getsse": st["getsse"]}
+            cfg = {"hdr": st["hdr"], "before": st["before"], "errAt": st["errAt"], "handler": st["handler"], "path": st["path"], "getsse": st["getsse"], "latesid": st["latesid"]}
             if tier == "thorough":
                 paths = all_histories(gr, init)
             else:
